@@ -159,6 +159,34 @@ fn t_mac_verify_object(i: &Input) -> Outcome {
     if r1.is_ok() != (len == 16) {
         return fail(format!("Ok only for the 16-byte MAC (len {})", len), format!("{:?}", r1.is_ok()), "OnetimeAuth::compute_and_verify accept/reject decision for a MAC of this length");
     }
+    // the incremental verifiers (new / update / verify), candidate held in a Vec and in a borrowed slice
+    let split = x.len() / 2;
+    let mut a = Auth::new(dryoc::auth::Key::from(k));
+    a.update(&x[..split].to_vec());
+    a.update(&x[split..].to_vec());
+    let r = a.verify(&cand);
+    if r.is_ok() != (len == 32) {
+        return fail(format!("Ok only for the 32-byte MAC (len {})", len), format!("{:?}", r.is_ok()), "Auth::new/update/verify accept/reject decision for a Vec MAC of this length");
+    }
+    let mut a = Auth::new(dryoc::auth::Key::from(k));
+    a.update(&x.to_vec());
+    let r = a.verify(&cand.as_slice());
+    if r.is_ok() != (len == 32) {
+        return fail(format!("Ok only for the 32-byte MAC (len {})", len), format!("{:?}", r.is_ok()), "Auth::new/update/verify accept/reject decision for a &[u8] MAC of this length");
+    }
+    let mut a = OnetimeAuth::new(dryoc::onetimeauth::Key::from(k));
+    a.update(&x[..split].to_vec());
+    a.update(&x[split..].to_vec());
+    let r = a.verify(&cand1);
+    if r.is_ok() != (len == 16) {
+        return fail(format!("Ok only for the 16-byte MAC (len {})", len), format!("{:?}", r.is_ok()), "OnetimeAuth::new/update/verify accept/reject decision for a Vec MAC of this length");
+    }
+    let mut a = OnetimeAuth::new(dryoc::onetimeauth::Key::from(k));
+    a.update(&x.to_vec());
+    let r = a.verify(&cand1.as_slice());
+    if r.is_ok() != (len == 16) {
+        return fail(format!("Ok only for the 16-byte MAC (len {})", len), format!("{:?}", r.is_ok()), "OnetimeAuth::new/update/verify accept/reject decision for a &[u8] MAC of this length");
+    }
     Ok(())
 }
 
